@@ -331,7 +331,7 @@ Declare(env, n, a) == [env EXCEPT ![Len(env)] = (n :> a) @@ env[Len(env)]]
 Alloc(s, v) == [s EXCEPT !.store = Append(s.store, v)]
 PushScope(env) == Append(env, <<>>)
 Builtins == {"print", "len", "keys", "type", "string", "sorted", "reversed", "int", "bool", "list",
-             "error", "try", "set", "float"}
+             "error", "try", "set", "float", "delete"}
 
 \* ================= evaluator =================
 RECURSIVE EvalE(_,_,_)
@@ -413,6 +413,14 @@ CallBuiltin(n, args, s) ==
                  ELSE [ok |-> TRUE, t |-> IF Len(xs) = 1 THEN h.t ELSE h.t \o <<32>> \o r.t]
               p == Parts(args)
           IN IF ~p.ok THEN Unknown(s) ELSE Ok(VNil, [s EXCEPT !.out = @ \o p.t \o <<10>>])
+    \* delete(m, key): removes the entry if there is one; only maps are modelled (lists: outside the model)
+    [] n = "delete" -> IF Len(args) # 2 THEN Raise("args error", s)
+                       ELSE IF args[1].t = "map" THEN
+                              (IF args[2].t # "str" THEN Raise("type error", s)
+                               ELSE LET m == MapOf(args[1], s) IN
+                                    Ok(VNil, [s EXCEPT !.heap[args[1].a].m = [q \in DOMAIN m \ {args[2].v} |-> m[q]]]))
+                       ELSE IF args[1].t \in {"int", "bool", "nil", "str", "float", "fn", "builtin", "error"} THEN Raise("type error", s)
+                       ELSE Unknown(s)
     [] n = "len" -> IF Len(args) # 1 THEN Raise("args error", s)
                     ELSE CASE args[1].t = "list" -> Ok(VInt(Len(Items(args[1], s))), s)
                            [] args[1].t = "str" -> Ok(VInt(Len(args[1].v)), s)
